@@ -154,16 +154,24 @@ def analyse(src, P, E, R):
     return libs, includes, classes
 
 
-def vector_src(ns, nl, npar, ni2c, other, same_name=False):
+def vector_src(ns, nl, npar, ni2c, other, same_name=False, lcd_order="parallel-first"):
     lines = ["from Reduino.Actuators import Servo, Led", "from Reduino.Displays import LCD", "from Reduino.Sensors import Button"]
     if other:
         lines += ["led = Led(13)", "btn = Button(2)"]
     for k in range(ns):
         lines.append(f"sa{k} = Servo({3 + k})")
-    for k in range(npar):
-        lines.append(f"lp{k} = LCD(rs=12, en=11, d4=5, d5=4, d6=3, d7={2 + k})")
-    for k in range(ni2c):
-        lines.append(f"li{k} = LCD(i2c_addr={39 + k})")
+    par = [f"lp{k} = LCD(rs=12, en=11, d4=5, d5=4, d6=3, d7={2 + k})" for k in range(npar)]
+    i2c = [f"li{k} = LCD(i2c_addr={39 + k})" for k in range(ni2c)]
+    if lcd_order == "i2c-first":
+        lcds = i2c + par
+    elif lcd_order == "interleaved":
+        lcds = [x for pair in itertools.zip_longest(i2c, par) for x in pair if x]
+    else:
+        lcds = par + i2c
+    if lcd_order == "lcd-before-servo":
+        lines = lines[:3 + (2 if other else 0)] + lcds + lines[3 + (2 if other else 0):]
+    else:
+        lines += lcds
     lines.append("while True:")
     for k in range(nl):
         lines.append(f"    sb{k} = Servo({6 + k})")
@@ -188,13 +196,17 @@ def extra_obligations(mods, tier, seed):
     fails = {"requested-iff-declared": [], "included-iff-declared": [], "instantiated-iff-declared": [], "no-duplicates": []}
     n = 0
     samples = []
-    for ns, nl, npar, ni2c, other in itertools.product(range(3), range(3), range(3), range(3), (False, True)):
-        src = vector_src(ns, nl, npar, ni2c, other)
+    space = [(ns, nl, npar, ni2c, other, "parallel-first") for ns, nl, npar, ni2c, other in itertools.product(range(3), range(3), range(3), range(3), (False, True))]
+    # declaration order of the two LCD kinds (and of displays relative to servos) must not matter
+    space += [(ns, nl, npar, ni2c, other, order) for order in ("i2c-first", "interleaved", "lcd-before-servo")
+              for ns, nl, npar, ni2c, other in itertools.product((0, 1), (0, 1), (1, 2), (1, 2), (False, True))]
+    for ns, nl, npar, ni2c, other, order in space:
+        src = vector_src(ns, nl, npar, ni2c, other, lcd_order=order)
         n += 1
         try:
             libs, includes, classes = analyse(src, P, E, R)
         except Exception as ex:
-            fails["requested-iff-declared"].append({"vector": [ns, nl, npar, ni2c, other], "error": f"{type(ex).__name__}: {ex}"})
+            fails["requested-iff-declared"].append({"vector": [ns, nl, npar, ni2c, other, order], "error": f"{type(ex).__name__}: {ex}"})
             continue
         declared = set()
         if ns + nl:
@@ -203,7 +215,7 @@ def extra_obligations(mods, tier, seed):
             declared.add("LiquidCrystal")
         if ni2c:
             declared.add("LiquidCrystal_I2C")
-        vec = {"vector": {"servo_setup": ns, "servo_loop_top": nl, "lcd_parallel": npar, "lcd_i2c": ni2c, "other": other},
+        vec = {"vector": {"servo_setup": ns, "servo_loop_top": nl, "lcd_parallel": npar, "lcd_i2c": ni2c, "other": other, "order": order},
                "libs": libs, "includes": includes, "classes": sorted(classes)}
         if set(libs) != declared:
             fails["requested-iff-declared"].append(vec)
